@@ -20,13 +20,13 @@ func vLenBits(m int) int {
 
 // vRefLabel parses `HmLabel ~n m` from an ideal bit list (TON specification, Appendix D.3 of DESIGN.md):
 //   hml_short$0 len:(Unary ~n) s:(n*Bit) | hml_long$10 n:(#<= m) s:(n*Bit) | hml_same$11 v:Bit n:(#<= m)
-// Returns ok=false when the bits run out or n > m.
-func vRefLabel(bits []bool, total int, m int) (n int, label [16]bool, used int, ok bool) {
-	N := len(bits)
-	pos := 0
+// Returns ok=false when the bits run out or n > m.  len(bits) is concrete.
+func vRefLabel(bits []bool, m int) (n int, label []bool, used int, ok bool) {
+	total := len(bits)
+	label = make([]bool, m)
 	get := func(p int) bool { // bit p, false beyond the list
 		r := false
-		for i := 0; i < N; i++ {
+		for i := 0; i < total; i++ {
 			r = zzvrt.Or(r, zzvrt.And(i == p, bits[i]))
 		}
 		return r
@@ -34,97 +34,78 @@ func vRefLabel(bits []bool, total int, m int) (n int, label [16]bool, used int, 
 	if total < 1 {
 		return 0, label, 0, false
 	}
-	if !get(0) { // short
-		pos = 1
+	pos := 0
+	if !bits[0] { // short
 		cnt := 0
 		done := false
-		for i := 1; i < N; i++ {
-			if i < total && !done {
-				if bits[i] {
-					cnt++
-				} else {
-					done = true
-				}
-			}
+		for i := 1; i < total; i++ {
+			isOne := zzvrt.And(!done, bits[i])
+			cnt = zzvrt.IteInt(isOne, cnt+1, cnt)
+			done = zzvrt.Or(done, !bits[i])
 		}
 		if !done {
 			return 0, label, 0, false
 		}
 		n = cnt
 		pos = 1 + cnt + 1
-		if n > m || pos+n > total {
+	} else {
+		if total < 2 {
 			return 0, label, 0, false
 		}
-		for j := 0; j < 16; j++ {
-			label[j] = zzvrt.And(j < n, get(pos+j))
-		}
-		return n, label, pos + n, true
-	}
-	if total < 2 {
-		return 0, label, 0, false
-	}
-	lb := vLenBits(m)
-	if !get(1) { // long
-		if 2+lb > total {
-			return 0, label, 0, false
-		}
-		for j := 0; j < lb; j++ {
-			n = n << 1
-			if get(2 + j) {
-				n |= 1
+		lb := vLenBits(m)
+		if !bits[1] { // long
+			if 2+lb > total {
+				return 0, label, 0, false
 			}
+			for j := 0; j < lb; j++ {
+				n = n<<1 | zzvrt.IteInt(bits[2+j], 1, 0)
+			}
+			pos = 2 + lb
+		} else { // same
+			if 3+lb > total {
+				return 0, label, 0, false
+			}
+			for j := 0; j < lb; j++ {
+				n = n<<1 | zzvrt.IteInt(bits[3+j], 1, 0)
+			}
+			if n > m {
+				return 0, label, 0, false
+			}
+			for j := 0; j < m; j++ {
+				label[j] = zzvrt.And(j < n, bits[2])
+			}
+			return n, label, 3 + lb, true
 		}
-		pos = 2 + lb
-		if n > m || pos+n > total {
-			return 0, label, 0, false
-		}
-		for j := 0; j < 16; j++ {
-			label[j] = zzvrt.And(j < n, get(pos+j))
-		}
-		return n, label, pos + n, true
 	}
-	// same
-	if 3+lb > total {
+	if n > m || pos+n > total {
 		return 0, label, 0, false
 	}
-	v := get(2)
-	for j := 0; j < lb; j++ {
-		n = n << 1
-		if get(3 + j) {
-			n |= 1
-		}
+	for j := 0; j < m; j++ {
+		label[j] = zzvrt.And(j < n, get(pos+j))
 	}
-	if n > m {
-		return 0, label, 0, false
-	}
-	for j := 0; j < 16; j++ {
-		label[j] = zzvrt.And(j < n, v)
-	}
-	return n, label, 3 + lb, true
+	return n, label, pos + n, true
 }
 
-// loadLabel / loadLabelSize on ARBITRARY cell bits agree with the specification parser
-// (all three label forms), for remaining key size m <= 16 and N symbolic bits.
-func VH_C05_loadLabel_vs_spec(m int, N int) {
-	bits := make([]bool, N)
+// loadLabel / loadLabelSize on ARBITRARY cell bits agree with the specification parser.
+// Instance: remaining key size m <= 16, label form (0 short, 1 long, 2 same), total bits in the cell.
+func VH_C05_loadLabel_vs_spec(m int, form int, total int) {
+	bits := make([]bool, total)
 	for i := range bits {
 		bits[i] = zzvrt.NondetBool("bit")
 	}
-	total := zzvrt.NondetInt("total")
-	zzvrt.Assume(0 <= total && total <= N)
+	if total >= 1 {
+		zzvrt.Assume(bits[0] == (form != 0))
+	}
+	if total >= 2 && form != 0 {
+		zzvrt.Assume(bits[1] == (form == 2))
+	}
 	c := boc.NewCell()
-	for i := 0; i < N; i++ {
-		if i < total {
-			_ = c.WriteBit(bits[i])
-		}
-	}
 	c2 := boc.NewCell()
-	for i := 0; i < N; i++ {
-		if i < total {
-			_ = c2.WriteBit(bits[i])
-		}
+	for i := 0; i < total; i++ {
+		_ = c.WriteBit(bits[i])
+		_ = c2.WriteBit(bits[i])
 	}
-	n, label, used, ok := vRefLabel(bits, total, m)
+	n, label, used, ok := vRefLabel(bits, m)
 	key := boc.NewBitString(m)
 	ln, kp, err := loadLabel(m, c, &key)
 	zzvrt.Assert("total", (err == nil) == ok)
@@ -132,11 +113,9 @@ func VH_C05_loadLabel_vs_spec(m int, N int) {
 		zzvrt.Assert("len", ln == n)
 		zzvrt.Assert("consumed", c.BitsAvailableForRead() == total-used)
 		zzvrt.Assert("key-len", kp.BitsAvailableForRead() == n)
-		for j := 0; j < 16; j++ {
-			if j < m {
-				b, e := kp.ReadBit()
-				zzvrt.Assert("key-bit", zzvrt.Implies(j < n, e == nil && b == label[j]))
-			}
+		for j := 0; j < m; j++ {
+			b, e := kp.ReadBit()
+			zzvrt.Assert("key-bit", zzvrt.Implies(j < n, e == nil && b == label[j]))
 		}
 	}
 	// the size-only variant agrees on the length whenever the full variant accepts
@@ -144,9 +123,8 @@ func VH_C05_loadLabel_vs_spec(m int, N int) {
 	if err == nil {
 		zzvrt.Assert("size-agrees", err2 == nil && ln2 == ln)
 	}
-	zzvrt.Cover("short", err == nil && !bits[0] && n == 3)
-	zzvrt.Cover("long", err == nil && bits[0] && !bits[1] && n >= 1)
-	zzvrt.Cover("same-ones", err == nil && bits[0] && bits[1] && bits[2] && n == m)
+	zzvrt.Cover("accepted-nonempty", err == nil && n >= 1)
+	zzvrt.Cover("accepted-full", err == nil && n == m)
 	zzvrt.Cover("rejected", err != nil)
 	zzvrt.ObserveInt("ln", ln)
 	zzvrt.ObserveBool("err", err != nil)
